@@ -345,7 +345,9 @@ def sel(index, rep):
     calls = [c for c in walk_no_nested(yf) if isinstance(c, ast.Call) and isinstance(c.func, ast.Attribute) and c.func.attr == "run_model_no_trade"]
     if len(calls) != 1:
         raise AnalysisError("run_scenarios_from_yaml: the call of run_model_no_trade was not found")
-    kwv = [k.value for k in calls[0].keywords if k.arg == "countries_list"]
+    from .core import bind_args as _ba15
+    b15 = _ba15(calls[0], rm)
+    kwv = [b15["countries_list"]] if "countries_list" in b15 else []
     if len(kwv) != 1 or not isinstance(kwv[0], ast.Name):
         raise AnalysisError("run_scenarios_from_yaml: countries_list is not passed as a plain variable")
     var = kwv[0].id
